@@ -93,6 +93,7 @@ type Cluster struct {
 	OnRequest func(*Request)
 	// MetaCorruptFn lets a fault replace the cells of a meta row.
 	MetaCorruptFn MetaCorrupt
+	Corrupting    bool // corruption faults are active: server-side observers are silent
 	ChunkLen      int  // compression chunk size used for responses (0 = Hadoop default)
 	PermuteMulti  bool // permute result order inside multi responses
 }
@@ -115,6 +116,10 @@ func NewCluster(n int) *Cluster {
 }
 
 func (c *Cluster) Violate(format string, a ...any) {
+	if c.Corrupting {
+		// requests built from corrupted meta rows / responses are not judged
+		return
+	}
 	c.Viol = append(c.Viol, fmt.Sprintf(format, a...))
 }
 
